@@ -20,7 +20,7 @@ ASSUMPTIONS = ["str.isidentifier / keyword.iskeyword / unicodedata.normalize('NF
 
 CHUNK = 0x4000
 PREFIXES = ["field_", "f"]
-PAIR_NAMES = ["name", "client", "client_query", "client_header", "+ab", "ab!", "a b", "a_b", "a-b", "a.b", "aB", "AB", "Ab", "ab", "A_B", "a__b", "_ab", "ab_", "1a", "_1a", "a1", "A1", "ﬁ", "fi",
+PAIR_NAMES = ["name", "client", "client_query", "client_header", "VALUE_1", "value 1", "2", "-", "+ab", "ab!", "a b", "a_b", "a-b", "a.b", "aB", "AB", "Ab", "ab", "A_B", "a__b", "_ab", "ab_", "1a", "_1a", "a1", "A1", "ﬁ", "fi",
               "é", "É", "class", "Class", "class_", "list", "List", "self", "", "-", "_", "match", "type_", "type"]
 END2END = ["a²", "٣x", "x٣", "௰", "a௰", "ﱠ", "aﱠb", "·a", "a·", "℘", "ªb", "x́", "́x", "𝒳", "ǅ", "a‍b", "ß", "ſ", "İ", "ı",
            "a\ud800b", "\U000e0041", "Ⅷ", "a　b"]
@@ -35,7 +35,7 @@ def cases(tier):
         for scope in SCOPES:
             yield {"labels": [f"name={name!r}", f"scope={scope}"], "payload": {"mode": "single", "name": name, "scope": scope, "prefix": "field_"}}
     # (3) pairs per scope
-    names = PAIR_NAMES if tier == "thorough" else PAIR_NAMES[:31]
+    names = PAIR_NAMES if tier == "thorough" else PAIR_NAMES[:35]
     for a, b in itertools.combinations(names, 2):
         for scope in SCOPES:
             for prefix in (PREFIXES if tier == "thorough" or scope in ("attr", "query") else PREFIXES[:1]):
